@@ -47,8 +47,9 @@ CONSTANTS
   Props          \* listed properties whose rules are switched on: subset of {"C04", "C05", "EXT"}
 
 VARIABLES
-  sHi,     \* sender: highest true index protected per SSRC (-1 = none)
-  sRtcp,   \* sender: SRTCP index per SSRC
+  sHi,     \* application: highest true index handed to the sender per SSRC (-1 = none)
+  sRtcp,   \* application: number of RTCP packets handed to the sender per SSRC
+  tx,      \* sender context table: Ssrcs -> [on, roc, last, rtcp, idle] (what protect_* keeps per SSRC)
   sent,    \* every packet the key holder produced (the network and the forger know them all)
   got,     \* packets delivered at least once
   rx,      \* receiver context table: AllSsrcs -> [on, roc, last, rtcp, idle]
@@ -57,9 +58,9 @@ VARIABLES
   hist,    \* actions so far (replayed by the harness)
   step     \* description of the last action (what the rules speak about)
 
-vars == <<sHi, sRtcp, sent, got, rx, start, ideal, hist, step>>
+vars == <<sHi, sRtcp, tx, sent, got, rx, start, ideal, hist, step>>
 \* hist/step are bookkeeping; they never influence a later step
-view == <<sHi, sRtcp, sent, got, rx, start, ideal>>
+view == <<sHi, sRtcp, tx, sent, got, rx, start, ideal>>
 
 Rule(p, e) == (p \in Props) => e
 
@@ -75,7 +76,9 @@ RocNo(i) == i \div M
 Abs(x)   == IF x < 0 THEN -x ELSE x
 MaxOf(a, b) == IF a >= b THEN a ELSE b
 
-Pkt(proto, s, i) == [proto |-> proto, ssrc |-> s, idx |-> i]
+\* idx: the index the application means (RTP: true extended index; RTCP: ordinal of the packet);
+\* widx: the index the sender context put on the wire / into the keystream
+Pkt(proto, s, i, w) == [proto |-> proto, ssrc |-> s, idx |-> i, widx |-> w]
 
 ---------------------------------------------------------------------------
 (* RFC 3711 section 3.3.1 / appendix A: the receiver's estimate v of the    *)
@@ -107,15 +110,17 @@ IdealMust(k, i) == IdealMustAt(ideal, k, i)
 
 ---------------------------------------------------------------------------
 (* Context table                                                            *)
-Count(t) == Cardinality({k \in AllSsrcs : t[k].on})
+CountIn(t, D) == Cardinality({k \in D : t[k].on})
 \* Intended design: a context that holds a stream's position is never lost (C04 quantifies over any number of
 \* SSRCs and over histories with silences). The pinned code drops every context idle for 60 s once more than 32
 \* exist (deviation "EvictLosesState": open finding KF-C04-2).
-Evict(t, k) ==
-  IF "EvictLosesState" \in Deviations /\ Count(t) > Watermark
-  THEN [j \in AllSsrcs |-> IF j # k /\ t[j].on /\ t[j].idle THEN FreshCtx ELSE t[j]]
+\* The same table logic serves the receive table (domain AllSsrcs) and the transmit table (domain Ssrcs).
+EvictIn(t, k, D) ==
+  IF "EvictLosesState" \in Deviations /\ CountIn(t, D) > Watermark
+  THEN [j \in D |-> IF j # k /\ t[j].on /\ t[j].idle THEN FreshCtx ELSE t[j]]
   ELSE t
-Admit(t, k) == LET e == Evict(t, k) IN [e EXCEPT ![k] = [@ EXCEPT !.on = TRUE, !.idle = FALSE]]
+AdmitIn(t, k, D) == LET e == EvictIn(t, k, D) IN [e EXCEPT ![k] = [@ EXCEPT !.on = TRUE, !.idle = FALSE]]
+Admit(t, k) == AdmitIn(t, k, AllSsrcs)
 
 \* The receiver's handling of an RTP packet for SSRC k carrying sequence number seq;
 \* `genuine` = produced by the key holder with true ROC `roc`.
@@ -150,7 +155,11 @@ Init ==
   /\ sHi = start
   /\ ideal = start
   /\ sRtcp = [s \in Ssrcs |-> 0]
-  /\ sent = {Pkt("rtp", s, start[s]) : s \in {q \in Ssrcs : start[q] >= 0}}
+  /\ sent = {Pkt("rtp", s, start[s], start[s]) : s \in {q \in Ssrcs : start[q] >= 0}}
+  /\ tx = [k \in Ssrcs |->
+             IF start[k] >= 0
+             THEN [on |-> TRUE, roc |-> RocNo(start[k]), last |-> SeqNo(start[k]), rtcp |-> 0, idle |-> FALSE]
+             ELSE FreshCtx]
   /\ got = sent
   /\ rx = [k \in AllSsrcs |->
              IF k \in Ssrcs /\ start[k] >= 0
@@ -161,34 +170,44 @@ Init ==
 
 StepOK(d) == d # 0 /\ -Half < d /\ d < Half /\ (Steps = {} \/ d \in Steps)
 
-\* protect_rtp: the application hands over a packet whose true (extended) index is i
+SentIdx(proto, k) == {p.idx : p \in {pp \in sent : pp.proto = proto /\ pp.ssrc = k}}
+
+\* protect_rtp: the application hands over a packet whose true (extended) index is i; the sender context
+\* (created / refreshed / garbage-collected like a receive context, but nothing to authenticate) estimates the ROC
+\* from its own highest index
 Protect(s, i) ==
   /\ Cardinality(sent) < MaxSent
   /\ SeqNo(i) \in SeqAlpha
-  /\ Pkt("rtp", s, i) \notin sent                      \* an index is used once
+  /\ i \notin SentIdx("rtp", s)                        \* an index is used once
   /\ IF sHi[s] < 0 THEN RocNo(i) = 0 ELSE StepOK(i - sHi[s])
-  /\ LET r   == IF sHi[s] < 0 THEN 0 ELSE RocNo(sHi[s])
-         sl  == IF sHi[s] < 0 THEN -1 ELSE SeqNo(sHi[s])
-         est == EstimateRoc(r, sl, SeqNo(i)) * M + SeqNo(i)   \* the index the sender context uses
-     IN /\ sent' = sent \cup {Pkt("rtp", s, est)}
-        /\ Do([NoStep EXCEPT !.op = "protect", !.proto = "rtp", !.ssrc = s, !.idx = i, !.est = est])
+  /\ LET t1  == AdmitIn(tx, s, Ssrcs)
+         c   == t1[s]
+         v   == EstimateRoc(c.roc, c.last, SeqNo(i))
+         est == v * M + SeqNo(i)                        \* the index the sender context uses
+     IN /\ sent' = sent \cup {Pkt("rtp", s, i, est)}
+        /\ tx' = [t1 EXCEPT ![s] = Advance(@, v, SeqNo(i))]
+        /\ Do([NoStep EXCEPT !.op = "protect", !.proto = "rtp", !.ssrc = s, !.idx = i, !.x = est, !.est = est])
   /\ sHi' = [sHi EXCEPT ![s] = MaxOf(@, i)]
   /\ UNCHANGED <<sRtcp, got, rx, start, ideal>>
 
 ProtectRtcp(s) ==
   /\ WithRtcp
   /\ Cardinality(sent) < MaxSent
-  /\ sRtcp' = [sRtcp EXCEPT ![s] = @ + 1]
-  /\ sent' = sent \cup {Pkt("rtcp", s, sRtcp[s] + 1)}
-  /\ Do([NoStep EXCEPT !.op = "protect", !.proto = "rtcp", !.ssrc = s, !.idx = sRtcp[s] + 1, !.est = sRtcp[s] + 1])
+  /\ LET t1 == AdmitIn(tx, s, Ssrcs)
+         w  == t1[s].rtcp + 1
+         n  == sRtcp[s] + 1
+     IN /\ sRtcp' = [sRtcp EXCEPT ![s] = n]
+        /\ tx' = [t1 EXCEPT ![s].rtcp = w]
+        /\ sent' = sent \cup {Pkt("rtcp", s, n, w)}
+        /\ Do([NoStep EXCEPT !.op = "protect", !.proto = "rtcp", !.ssrc = s, !.idx = n, !.x = w, !.est = w])
   /\ UNCHANGED <<sHi, got, rx, start, ideal>>
 
 \* the network hands a genuine packet to the receiver (first time or again)
 Deliver(p) ==
   /\ p \in sent
   /\ LET c == IF rx[p.ssrc].on THEN rx[p.ssrc] ELSE FreshCtx
-         r == IF p.proto = "rtp" THEN RecvRtp(rx, p.ssrc, TRUE, SeqNo(p.idx), RocNo(p.idx))
-                                 ELSE RecvRtcp(rx, p.ssrc, TRUE, p.idx)
+         r == IF p.proto = "rtp" THEN RecvRtp(rx, p.ssrc, TRUE, SeqNo(p.widx), RocNo(p.widx))
+                                 ELSE RecvRtcp(rx, p.ssrc, TRUE, p.widx)
      IN /\ rx' = r.t
         /\ Do([NoStep EXCEPT !.op = "deliver", !.proto = p.proto, !.ssrc = p.ssrc, !.idx = p.idx,
                              !.acc = r.ok, !.replay = (p \in got),
@@ -196,7 +215,7 @@ Deliver(p) ==
                              !.imust = IF p.proto = "rtp" THEN IdealMust(p.ssrc, p.idx) ELSE TRUE])
         /\ ideal' = IF p.proto = "rtp" /\ r.ok THEN [ideal EXCEPT ![p.ssrc] = MaxOf(@, p.idx)] ELSE ideal
   /\ got' = got \cup {p}
-  /\ UNCHANGED <<sHi, sRtcp, sent, start>>
+  /\ UNCHANGED <<sHi, sRtcp, tx, sent, start>>
 
 \* forged sequence numbers worth trying against context c
 ForgeSeqs(c) == {q \in SeqAlpha : \E d \in ForgeOffsets : q = ((IF c.last < 0 THEN 0 ELSE c.last) + d) % M}
@@ -219,8 +238,8 @@ RepRtcp(t, k, x, n) ==
 
 ForgeRtp(kind, k, base, seq, rep) ==
   /\ kind \in RtpForgeKinds
-  /\ \/ /\ kind \in BaseKinds /\ Pkt("rtp", k, base) \in sent /\ seq = SeqNo(base)
-     \/ /\ kind = "reseq" /\ Pkt("rtp", k, base) \in sent /\ seq # SeqNo(base)
+  /\ \/ /\ kind \in BaseKinds /\ base \in SentIdx("rtp", k) /\ seq = SeqNo(base)
+     \/ /\ kind = "reseq" /\ base \in SentIdx("rtp", k) /\ seq # SeqNo(base)
         /\ seq \in ForgeSeqs(IF rx[k].on THEN rx[k] ELSE FreshCtx)
      \/ /\ kind = "wrongkey" /\ k \in Ssrcs /\ base = -1
         /\ seq \in ForgeSeqs(IF rx[k].on THEN rx[k] ELSE FreshCtx)
@@ -229,15 +248,15 @@ ForgeRtp(kind, k, base, seq, rep) ==
      IN /\ rx' = RepRtp(rx, k, seq, rep)
         /\ Do([NoStep EXCEPT !.op = "forge", !.proto = "rtp", !.ssrc = k, !.idx = base, !.kind = kind,
                              !.x = seq, !.forged = TRUE, !.acc = r.ok, !.rep = rep])
-  /\ UNCHANGED <<sHi, sRtcp, sent, got, start, ideal>>
+  /\ UNCHANGED <<sHi, sRtcp, tx, sent, got, start, ideal>>
 
 RtcpBaseKinds == {"flip_hdr", "flip_payload", "flip_tag", "flip_ebit", "truncate", "extend"}
 \* "reindex": a genuine SRTCP packet with its index field rewritten to x
 ForgeRtcp(kind, k, base, x, rep) ==
   /\ WithRtcp
   /\ kind \in RtcpForgeKinds
-  /\ \/ /\ kind \in RtcpBaseKinds /\ Pkt("rtcp", k, base) \in sent /\ x = base
-     \/ /\ kind = "reindex" /\ Pkt("rtcp", k, base) \in sent /\ x # base
+  /\ \/ /\ kind \in RtcpBaseKinds /\ base \in SentIdx("rtcp", k) /\ x = base
+     \/ /\ kind = "reindex" /\ base \in SentIdx("rtcp", k) /\ x # base
         /\ x \in {0, rx[k].rtcp, rx[k].rtcp + 1, rx[k].rtcp + 5}
      \/ /\ kind = "wrongkey" /\ k \in Ssrcs /\ base = -1 /\ x \in {rx[k].rtcp, rx[k].rtcp + 1, rx[k].rtcp + 5}
      \/ /\ kind = "newssrc" /\ k \in ForgedSsrcs /\ base = -1 /\ x = 1
@@ -245,17 +264,18 @@ ForgeRtcp(kind, k, base, x, rep) ==
      IN /\ rx' = RepRtcp(rx, k, x, rep)
         /\ Do([NoStep EXCEPT !.op = "forge", !.proto = "rtcp", !.ssrc = k, !.idx = base, !.kind = kind,
                              !.x = x, !.forged = TRUE, !.acc = r.ok, !.rep = rep])
-  /\ UNCHANGED <<sHi, sRtcp, sent, got, start, ideal>>
+  /\ UNCHANGED <<sHi, sRtcp, tx, sent, got, start, ideal>>
 
 \* 60 s pass: every context that saw nothing since becomes stale
 Tick ==
   /\ WithTick
-  /\ \E k \in AllSsrcs : rx[k].on /\ ~rx[k].idle
+  /\ \/ \E k \in AllSsrcs : rx[k].on /\ ~rx[k].idle
+     \/ \E k \in Ssrcs : tx[k].on /\ ~tx[k].idle
   /\ rx' = [k \in AllSsrcs |-> IF rx[k].on THEN [rx[k] EXCEPT !.idle = TRUE] ELSE rx[k]]
+  /\ tx' = [k \in Ssrcs |-> IF tx[k].on THEN [tx[k] EXCEPT !.idle = TRUE] ELSE tx[k]]
   /\ Do([NoStep EXCEPT !.op = "tick"])
   /\ UNCHANGED <<sHi, sRtcp, sent, got, start, ideal>>
 
-SentIdx(proto, k) == {p.idx : p \in {pp \in sent : pp.proto = proto /\ pp.ssrc = k}}
 CtxOf(k) == IF rx[k].on THEN rx[k] ELSE FreshCtx
 
 ForgeRtpAny == \E rep \in ForgeReps :
@@ -297,7 +317,11 @@ IndexAgreement == Rule("C04", (step.op = "deliver" /\ step.must) => step.acc)
 
 \* the receiver's state is always the highest genuine index it accepted: never ahead of the sender
 NoPhantomIndex == Rule("C04", \A s \in Ssrcs : (rx[s].on /\ rx[s].last >= 0) =>
-                                 (Pkt("rtp", s, Hi(rx[s])) \in sent /\ Hi(rx[s]) <= sHi[s]))
+                                 /\ \E p \in sent : p.proto = "rtp" /\ p.ssrc = s /\ p.widx = Hi(rx[s])
+                                 /\ Hi(rx[s]) <= sHi[s])
+\* (EXT) an SRTCP index is never used twice for a stream under one key (RFC 3711 9.1: keystream reuse)
+SrtcpIndexFresh == Rule("EXT", \A p, q \in sent : (p.proto = "rtcp" /\ q.proto = "rtcp" /\ p.ssrc = q.ssrc /\ p.widx = q.widx)
+                                                     => p = q)
 
 (* C05 on the model                                                         *)
 Rejected == Rule("C05", step.forged => ~step.acc)
@@ -306,7 +330,7 @@ ForgeUnchanged == [][ Rule("C05", step'.forged => Crypto(rx') = Crypto(rx)) ]_va
 
 \* the genuine packets (any the key holder could ever produce in the bounded universe) that
 \* the receiver would accept are the same before and after a forged step
-Universe == {Pkt("rtp", s, r * M + q) : s \in Ssrcs, r \in 0..MaxRoc, q \in SeqAlpha}
+Universe == {Pkt("rtp", s, r * M + q, r * M + q) : s \in Ssrcs, r \in 0..MaxRoc, q \in SeqAlpha}
 AcceptSet(t) == {p \in Universe : WouldAcceptIdx(IF t[p.ssrc].on THEN t[p.ssrc] ELSE FreshCtx, p.idx)}
 AcceptanceStable == [][ Rule("C05", step'.forged => AcceptSet(rx') = AcceptSet(rx)) ]_vars
 
@@ -325,5 +349,6 @@ NoLossByEviction == Rule("C04", (step.op = "deliver" /\ step.imust /\ ~step.repl
 TypeOK ==
   /\ \A s \in Ssrcs : sHi[s] \in -1..TopIdx
   /\ \A k \in AllSsrcs : rx[k].roc \in 0..(RocMod - 1) /\ rx[k].last \in -1..(M - 1)
+  /\ \A k \in Ssrcs : tx[k].roc \in 0..(RocMod - 1) /\ tx[k].last \in -1..(M - 1)
   /\ got \subseteq sent
 =============================================================================
